@@ -296,8 +296,8 @@ class Controller:
             if rec.get("il") and len(self.interleavings) < 2_000_000:
                 self.interleavings.add(rec["il"])
             self.digests[rec["run"]] = rec["dg"]
-            if rec.get("aux") is not None and len(self.aux) < 64:
-                self.aux.append(rec["aux"])
+            if rec.get("aux") is not None and len(self.aux) < 2048:
+                self.aux.extend(rec["aux"] if isinstance(rec["aux"], list) else [rec["aux"]])
             if "trace" in rec and not rec["viol"] and rec["nt"] and len(self.samples) < 3:
                 self.samples.append(_sample_view(rec["trace"]))
             for v in rec["viol"]:
@@ -533,6 +533,13 @@ def explore(ctl: Controller, a, t0):
         else:
             ctl.errors.append(f"violation {chk}/{site} did not reproduce from {path} in a fresh process (exit {p.returncode})")
 
+    for r in getattr(ctl, "violations_extra", []):
+        # violations found by a world's own self-test (e.g. hash-seed disagreement): replay in a fresh process like any other
+        p = subprocess.run([sys.executable, os.path.join(VERIF, "check"), w.pid, "--replay", r["replay"]], capture_output=True, text=True, timeout=3600)
+        if p.returncode == 1 and f"check={r['check']} " in p.stdout:
+            reported.append(r)
+        else:
+            ctl.errors.append(f"violation {r['check']}/{r['site']} did not reproduce from {r['replay']} (exit {p.returncode})")
     wall = time.monotonic() - t0
     for (chk, site), e in sorted(ctl.known_seen.items()):
         print(f"KNOWN-FINDING: property={w.pid} check={chk} site={site} occurrences={e['count']} {e['what']}")
